@@ -401,27 +401,36 @@ def selectLevel (s : Sess) (n : Nat) (sb eb : Bound) : R Nat :=
           else go (lvl + 1) cs
   go 0 s.caches
 
-/-- `read_n` (after the fixes: `n = 0` returns nothing; the ordering assert compares line counts) -/
-def apiReadN (dir : Dir) (s : Sess) (n : Nat) (sb eb : Bound) : R (List Entry) := do
-  -- the ordering assert
-  let lens ← (s.caches.mapM fun c => dataLenLines c.d)
-  let sorted := (lens.zip (lens.drop 1)).all fun (a, b) => decide (a ≥ b)
-  if !sorted then .error .panic
-  if n = 0 then return []
-  let lvl ← selectLevel s n sb eb
-  let (region, d) : Bytes × DataSess :=
-    if lvl = 0 then (mainRegion dir s, s.d)
-    else match s.caches[lvl - 1]? with
-      | some c => ((dir.cache c.B).region c.d.hdrLen, c.d)
-      | none => (mainRegion dir s, s.d)
+/-- the tail of `read_n` once the level is chosen: seek, bucket size from the line count,
+resampling read -/
+def readNTail (region : Bytes) (d : DataSess) (cb : Option Bool) (n : Nat) (sb eb : Bound) : R (List Entry) := do
   match ← apiSeek region d sb eb with
   | none => pure []
   | some pos =>
     let lines := pos.lines d.p
     let bucket := max 1 (lines / n)
-    match dataReadResampling region d s.cb bucket pos with
+    match dataReadResampling region d cb bucket pos with
     | .ok es => pure es
     | .error f => .error (wrapErr "Reading" f)
+
+/-- region and `Data` of level `lvl` (0 = the series itself, `i+1` = cache `i`) -/
+def levelData (dir : Dir) (s : Sess) (lvl : Nat) : Bytes × DataSess :=
+  if lvl = 0 then (mainRegion dir s, s.d)
+  else match s.caches[lvl - 1]? with
+    | some c => ((dir.cache c.B).region c.d.hdrLen, c.d)
+    | none => (mainRegion dir s, s.d)
+
+/-- the ordering assert of `read_n`: line counts of the cache levels do not increase -/
+def lensSorted (lens : List Nat) : Bool :=
+  (lens.zip (lens.drop 1)).all fun (a, b) => decide (a ≥ b)
+
+/-- `read_n` (after the fixes: `n = 0` returns nothing; the ordering assert compares line counts) -/
+def apiReadN (dir : Dir) (s : Sess) (n : Nat) (sb eb : Bound) : R (List Entry) := do
+  let lens ← (s.caches.mapM fun c => dataLenLines c.d)
+  if !lensSorted lens then .error .panic
+  if n = 0 then return []
+  let lvl ← selectLevel s n sb eb
+  readNTail (levelData dir s lvl).1 (levelData dir s lvl).2 s.cb n sb eb
 
 /-- the paging loop of examples/read.rs as run by the harness: `.error` carries the text
 printed when the loop ends in a fault -/
